@@ -1024,7 +1024,17 @@ static void add_console_line (interactive_t *ip, const char *line_buffer, size_t
     return;
 
   int len = (int)(line_length > 0 ? line_length - 1 : 0); /* Exclude null terminator */
-  if (len <= 0 || ip->text_end + len >= MAX_TEXT)
+  if (len <= 0)
+    return;
+  if (ip->text_end + len >= MAX_TEXT && !cmd_in_buf (ip))
+    {
+      /* Only an unfinished over-long line is pending and nothing will ever consume it:
+       * discard it like get_user_data() does, otherwise the console stays blocked for good.
+       */
+      ip->text_start = 0;
+      ip->text_end = 0;
+    }
+  if (ip->text_end + len >= MAX_TEXT)
     return;
 
   /* Convert newlines to null terminators for command parsing */
